@@ -158,7 +158,11 @@ def run(ctx):
             ctx.sample({"text": ir_flat.render_library(p["lib"]), "expected": p["expect"]}, limit=4)
     need = ["level-top", "level-nested", "n1", "n2", "type-Real", "type-Integer", "type-Boolean", "type-String",
             "der-none", "der-direct", "der-inexpr", "der-ofexpr", "der-nested", "der-initial",
-            "cat-constant", "cat-parameter", "cat-input", "cat-state", "cat-alg", "two-keyword-prefix"]
+            "cat-constant", "cat-parameter", "cat-input", "cat-state", "cat-alg", "two-keyword-prefix", "alias-type", "builtin-type"]
+    # the combination nested component x input/output keyword x alias type must be present
+    if not any(p["pv"]["level"] == "nested" and any(k["alias"] and k["io"] == io for k in p["pv"]["vs"]) for p in progs for io in ("input",)) \
+            or not any(p["pv"]["level"] == "nested" and any(k["alias"] and k["io"] == "output" for k in p["pv"]["vs"]) for p in progs):
+        raise MachineryError("vacuous: no nested input/output variable of alias type in the family")
     missing = [t for t in need if not cover.get(t)]
     if missing:
         raise MachineryError("vacuous: shapes never generated: %s" % missing)
